@@ -47,6 +47,8 @@ def spell(path, how, sandbox):
         return PathLike(path)
     if how == 'rel':
         return os.path.relpath(path, os.getcwd())
+    if how == 'cwdname':
+        return os.path.basename(path)
     if how == 'redundant':
         d, b = os.path.split(path)
         return d + '//./' + b
@@ -360,6 +362,19 @@ class Interp:
             cmp = resolve_step(cmp, self.build_no)
             spelling = st[7] if len(st) > 7 else None
             path = sb.p(rel)
+            if spelling == 'cwdname':
+                # a bare file name: it names another file after every chdir
+                # (only in a working directory that no build can remove:
+                # it holds a foreign file)
+                try:
+                    cwd = os.getcwd()
+                except OSError:
+                    cwd = ''
+                if cwd.startswith(sb.w + os.sep) and os.path.isfile(
+                        os.path.join(cwd, 'keep')):
+                    path = os.path.join(cwd, os.path.basename(path))
+                else:
+                    spelling = None
             func = self.make_func(fid)
             fname = self.funcs[fid]['name']
             n_before = len(self.order)
